@@ -8,7 +8,7 @@ props = [json.loads(l) for l in open(os.path.join(os.path.dirname(__file__), "..
 ids = [p["id"] for p in props]
 checks = []
 for pid in ids:
-    if pid not in registry.PROPS:
+    if pid not in registry.PROPS or pid not in mm.CLAIMED:
         continue
     m = mm.CLAIMED[pid]
     checks.append({
@@ -22,8 +22,9 @@ for pid in ids:
         "level_note": m["note"],
         "technique": m.get("technique", "SAT-based bounded model checking (Kani/CBMC/CaDiCaL) of the real functions with symbolic inputs; counterexamples replayed natively"),
     })
-na = [{"property_id": pid, "reason": mm.NOT_APPLICABLE[pid]} for pid in ids if pid not in registry.PROPS]
-missing = [pid for pid in ids if pid not in registry.PROPS and pid not in mm.NOT_APPLICABLE]
+claimed = {c["property_id"] for c in checks}
+na = [{"property_id": pid, "reason": mm.NOT_APPLICABLE[pid]} for pid in ids if pid not in claimed]
+missing = [pid for pid in ids if pid not in claimed and pid not in mm.NOT_APPLICABLE]
 assert not missing, missing
 try:
     commits = subprocess.check_output(["git", "-C", "/repo", "log", "--format=%H %s", "--grep=^verif hook"], text=True).split("\n")
